@@ -228,6 +228,16 @@ def step (st : St) (ws : List String) : St × String :=
       match known st id with
       | some b => ({ st with s := recvDrain st st.s b }, "ok")
       | none => (st, "bad-op")
+    | ["frecv", id, f] =>
+      match known st id, (match f with | "commit" => some Fault.commit | "set" => some Fault.set
+                                        | "delete" => some Fault.delete | _ => none) with
+      | some b, some flt =>
+        let W := worldOf st.defs
+        let r := st.s.receiveFault W b flt
+        let n := fuelOf st * fuelOf st
+        let s' := if flt == Fault.delete then State.drainNoDel W n r.1 else State.drain W n r.1
+        ({ st with s := s' }, if r.2 then "ok" else "err")
+      | _, _ => (st, "bad-op")
     | ["par", gs] =>
       match (gs.splitOn "/").mapM (fun g => if g == "-" then none else listOf (known st) g) with
       | some groups =>
